@@ -179,6 +179,8 @@ def run(run):
         scases = list(res.iter_emitted())
         stream.replay_cases(run, scases, 'info-scan')
         run.notes['info_only_damaged_variants'] = info_on_damaged(run)
+        from .. import cmd
+        cmd.run_commands(run, wd, ['query'], seed())          # the query command: a % query decodes metadata only (Cmd.tla)
     finally:
         rm_workdir(wd)
     run.assumptions = ['parameter names are read from definitions/*.json as data (they are the vocabulary of the query language); values are read from the octets with those layouts and cross-checked against Framing.tla',
